@@ -324,6 +324,14 @@ func checkC03(c *Ctx) {
 		s.evalOnce(deep, nil, emptyFS)
 		s.evalOnce(deep, []string{"TreeDump", "CodeDump"}, emptyFS)
 	}
+	// sources without any statement, with every option subset
+	for _, src := range []string{"", " ", "\n", "\t\n  ", ";", ";;", "// only a comment", "// c\n", "/* block */", "/* a */ // b\n;", "package main", "package main\n", "import \"fmt\"", "package main; import \"fmt\""} {
+		for _, o := range opts {
+			s.evalOnce(src, o, emptyFS)
+			s.loadOnce(map[string]string{"main/main.go": src}, "main", o)
+			s.loadOnce(map[string]string{"main/main.go": "package main\n" + src}, "main", o)
+		}
+	}
 	// scripts that fail or loop at run time
 	for _, src := range []string{"for { }", "func f() { f() }; f()", "x := []int{}; x[3]", "var m map[string]int; m[\"a\"] = 1", "type T struct { X int }; var t *T; t.X",
 		"1 / 0", "x := 0; 1 % x", "panic(\"boom\")", "func f() int { }; f()", "func f() (int, int) { return 1 }; a, b := f()", "f := 3; f()", "var f func(); f()",
